@@ -198,7 +198,12 @@ Inductive case :=
 | PMCase (npids : nat) (ops : list op) (results : list res) (dump : list dump_entry)
 | PMBigCase (npids : nat) (pre : list op) (pre_res : list res) (k run_len : nat)
             (post : list op) (post_res : list res) (dump : list dump_entry)
-| ScanCase (p : pat) (d : bytes) (mm : option N) (panicked : bool) (reported : list triple).
+| ScanCase (p : pat) (d : bytes) (mm : option N) (panicked : bool) (reported : list triple)
+(* the real MatchList / PatternMatches panicked while running the operations
+   (the sequence is in the replay file).  The model is total: no operation
+   sequence makes it fail (search_index_le, matches_in_range_spec), so this
+   is always a disagreement and a violation. *)
+| MLPanicCase (nops : nat).
 
 Fixpoint run_list (l : match_list) (adds : list (N * N * option N * bool)) : match_list * list bool :=
   match adds with
@@ -222,6 +227,7 @@ Definition check_case (c : case) : bool :=
       let '(p3, rs3) := run_ops p2 post in
       list_eqb res_eqb rs1 pre_res && list_eqb res_eqb rs3 post_res &&
       list_eqb dump_eqb (model_dump p3 npids) dump
+  | MLPanicCase _ => false
   | ScanCase p d mm panicked rep =>
       negb panicked &&
       (if limit_reached mm rep then
@@ -245,6 +251,7 @@ Definition spec_case (c : case) : bool :=
   | PMCase _ _ _ dump => forallb (fun e => ascending_b (map t_start (snd (fst e)))) dump
   | PMBigCase _ _ _ _ _ _ _ dump => forallb (fun e => ascending_b (map t_start (snd (fst e)))) dump
   | ScanCase p d mm panicked rep => negb panicked && scan_spec p d mm rep
+  | MLPanicCase _ => false
   end.
 
 (* which part of the specification fails on a scan case (bit mask; used only to
@@ -259,5 +266,6 @@ Definition diagnose (c : case) : N :=
       (if ascending_b (map t_start rep) then 0 else 4) +
       (if limit_reached mm rep || complete_b p d rs rep then 0 else 8) +
       (if count_ok mm rep then 0 else 16)
+  | MLPanicCase _ => 33
   | _ => 32
   end.
